@@ -297,11 +297,13 @@ PENDING_REASON = "not claimed yet: static checker under construction (see DESIGN
 
 # ---- clauses added after the seed waves (appended to the texts above; see DESIGN.md 9.3 / 9.4)
 _ADDED = {
+    "C34": "Added: R-REPEAT: the compiler's repeated-name check (found by role) is not skipped on a data-dependent condition.",
     "C44": "Added: R-STATIC-HASH also demands that the digest wrapper is built on every flatten (no per-instance memo).",
     "C31": "Added: Also IO-NOREWRITE: in the canonical loader only bufread stores into the by-value blocks it has read.",
     "C30": "Added: Also R-WAKE-NAN: the predicate mj_wake applies to a sleeping tree treats a NaN velocity as a change (finite evaluation).",
     "C27": "Added: R-INDEXDIM also covers the transmission stage (engine_core_smooth.c) and the length-range computation (engine_setconst.c): row provenance incl. nactuator-dimensioned arrays, parameters range-checked against nactuator as actuator ids, and the column stride of multi-column arrays.",
-    "C04": "Added: R-MODSET also counts a non-const local pointer into a state array that is stored through or handed to a non-const parameter.",
+    "C04": "Added: R-MODSET also counts a non-const local pointer into a state array that is stored through or handed to a non-const parameter."
+           " Also R-STAGE-INPUT: nothing in the closure of the position / velocity stages reads d->ctrl.",
     "C01": "Added: the warm/cold-start routine (found by role) writes qacc and efc_force on every path (R-ITERATE-INIT)."
            " Also R-CONTACT-INIT: every member of mjContact is written in the translation unit that creates contacts (uninitialised storage).",
     "C09": "Added: R-FRESH on the inverse pipeline (no stage reads a derived field whose producer is more conditional) and "
@@ -314,7 +316,8 @@ _ADDED = {
            " Also: the arena size test cannot wrap (every unsigned subtraction in it is non-negative under pstack + parena <= narena) and R-ARENA-STALE (what a rewind of d->parena releases is cleared with it; shared with C01).",
     "C21": "Added: R-FREE-NULL (a freed model/data pointer member is nulled or overwritten before the next free of it on all "
            "paths) and R-PUBLISH-INIT (an object is published to its owner only after every member its destructor reads is "
-           "initialised).",
+           "initialised)."
+           " Also R-ALLOC-GUARD: a block from mju_malloc reaches the function's Cleanup scope guard before any return not under its own null test.",
     "C22": "Added: R-SEMANTIC — abstract interpretation of the generated functions over every weak ordering of <= 4 (sort) / <= 5 "
            "(partial sort, all k) abstract elements and of the merge region on every pair of sorted runs of length <= 3: stable "
            "sorted output / k smallest in order / stable merge; shape-independent (fast paths, sift-down bounds, heap construction)."
